@@ -2410,3 +2410,77 @@ impl Gen {
         case9(&m, dec)
     }
 }
+
+/// Deterministic boundary cases around the compression-pointer limit: a name first written at
+/// offset 0x4000 - 1, exactly 0x4000, 0x4000 + 1 and then used again whole and as the suffix of a
+/// longer name (owner and rdata positions).  Exact-offset boundaries are too rare for the random
+/// shapes (one in a few thousand messages), so they are enumerated.
+pub fn at16k_cases(r: &mut Rng, stats: &mut Stats) -> Vec<Toks> {
+    let mut out = vec![];
+    let pool = gen_pool(r, stats);
+    // the late name is a new label in front of the question name (known from offset 12 on), so that
+    // the node of the new label itself carries the boundary offset; the encoder writes it as
+    // `3 n e w` + pointer to offset 12
+    let needle = b"\x03new\xc0\x0c";
+    for delta in [-1i64, 0, 1] {
+        for variant in 0..3u8 {
+            let owner: Name = vec![b"pad".to_vec()];
+            let qname: Name = vec![b"zone".to_vec(), b"example".to_vec()];
+            let mut late: Name = vec![b"new".to_vec()];
+            late.extend(qname.iter().cloned());
+            let mut longer: Name = vec![b"a".to_vec()];
+            longer.extend(late.iter().cloned());
+            let mut base = gen_base(r, &pool);
+            base.question.qdomain = dom(&qname);
+            base.answer.clear();
+            base.nameserver.clear();
+            base.additional.clear();
+            let tail_seed = r.fork();
+            let build = |fill: usize| -> DNSPkt {
+                let mut rr = tail_seed.clone();
+                let mut m = base.clone();
+                let mut filler = other_rr(&mut rr, &owner, fill);
+                filler.rrtype = Type(16);
+                m.answer.push(filler);
+                match variant {
+                    0 => {
+                        // whole name reused as an owner, then as a suffix
+                        m.answer.push(other_rr(&mut rr, &late, 3));
+                        m.answer.push(other_rr(&mut rr, &late, 3));
+                        m.answer.push(other_rr(&mut rr, &longer, 3));
+                    }
+                    1 => {
+                        // suffix reused first
+                        m.answer.push(other_rr(&mut rr, &late, 3));
+                        m.nameserver.push(other_rr(&mut rr, &longer, 3));
+                        m.additional.push(other_rr(&mut rr, &late, 3));
+                    }
+                    _ => {
+                        // reused inside rdata
+                        m.answer.push(other_rr(&mut rr, &late, 3));
+                        m.answer.push(named_rr(&mut rr, &longer, &late, &late));
+                        m.nameserver.push(named_rr(&mut rr, &late, &longer, &longer));
+                    }
+                }
+                m
+            };
+            // measure where the late name lands with a 100-octet filler, then size the filler exactly
+            let probe = build(100);
+            let bytes = match catch(|| probe.serialise()) {
+                Some(b) => b,
+                None => continue,
+            };
+            let at = match bytes.windows(needle.len()).position(|w| w == needle) {
+                Some(p) => p as i64,
+                None => continue,
+            };
+            let len = 100 + (0x4000 + delta - at);
+            if !(0..=65000).contains(&len) {
+                continue;
+            }
+            stats.bump("k2.at16k");
+            out.push(case2(&build(len as usize), 65536));
+        }
+    }
+    out
+}
